@@ -243,6 +243,22 @@ class World:
                 ctx.count(n=1)
                 if t.dtype != dt:
                     ctx.violation(f"dtype:computed-in:{name}", f"{name} is computed in {t.dtype} although the instrument's buffers are {dt}", {"primary": p, "trace": trace})
+            # averages over several FRESH simulations, last of all (they replace the buffers): the result is in the dtype the
+            # instrument produces - the declared one, or the global default in force now when none is declared
+            want = prim.dtype if prim.dtype is not None else torch.get_default_dtype()
+            for name, fn in (("compute_loss(n_times=2)", lambda: Hedger(SumNet(), ["moneyness"]).compute_loss(d, n_paths=2, n_times=2)),
+                             ("price(n_times=3)", lambda: Hedger(SumNet(), ["moneyness"]).price(d, n_paths=2, n_times=3))):
+                try:
+                    t = fn()
+                except (RuntimeError, NotImplementedError, ValueError) as e:
+                    if want in (torch.float16, torch.bfloat16):
+                        ctx.skip("half precision: backend does not implement an operation", 1)
+                        continue
+                    ctx.violation("dtype:computed:raises", f"{name} raised {type(e).__name__}", {"error": str(e)[:200], "trace": trace})
+                    continue
+                ctx.count(n=1)
+                if t.dtype != want:
+                    ctx.violation(f"dtype:computed-in:{name}", f"{name} is computed in {t.dtype} although the instrument simulates in {want}", {"primary": p, "trace": trace})
             d.delist()
 
 
